@@ -6,6 +6,7 @@
 import Fx.Eval
 import Fx.Lemmas.Enc
 import Fx.Lemmas.Consumed
+import Fx.Lemmas.EmitPlans
 namespace Fx.C02
 open Fx
 
@@ -37,6 +38,14 @@ theorem C02_consumed_all (a : Ast) (p : Plans) (hp : p.SizeExact' = true) (fuel 
     (c : Cur) (v : Val) (c' : Cur) (h : evalImpl a p fuel name c = .ok v c') :
     wsVal p v ≤ c.remaining ∧ c'.off = c.off + wsVal p v ∧ c'.data = c.data.drop (wsVal p v) ∧ wsVal p v % 4 = 0 :=
   (eval_consumed a p hp fuel).1 name c v c' h
+
+/-- **Specification level**: for every `Ast` in the supported subset for which generation succeeds, every type, fuel and
+    EVERY byte string: a successful decode consumes exactly `wire_size()` of the value it returns. -/
+theorem C02_consumed_all_supported (a : Ast) (m : Module) (hs : Supported a = true) (hg : generateModule a = .ok m)
+    (fuel : Nat) (name : String) (c : Cur) (v : Val) (c' : Cur) (h : evalImpl a m.plans fuel name c = .ok v c') :
+    wsVal m.plans v ≤ c.remaining ∧ c'.off = c.off + wsVal m.plans v ∧ c'.data = c.data.drop (wsVal m.plans v) ∧
+      wsVal m.plans v % 4 = 0 :=
+  C02_consumed_all a m.plans (supported_plans hs hg).2 fuel name c v c' h
 
 /-- in particular the element stepping of `read_variable_array` (advance by `wire_size()` of the element decoded from a
     clone) lands exactly where the element's own decoder stopped -/
